@@ -2,6 +2,7 @@ import Cuke.Driver.Tag
 import Cuke.Driver.Retry
 import Cuke.Driver.Match
 import Cuke.Driver.Pipe
+import Cuke.Driver.Mon
 /-! `cuke-driver`: one request per line on stdin, one response per line on stdout. -/
 open Cuke Cuke.Wire Cuke.Driver
 
@@ -16,6 +17,8 @@ def dispatch (line : String) : String :=
       | "retry.resolve" => handleRetryResolve args
       | "match.find" => handleMatchFind args
       | "pipe.run" => handlePipeRun args
+      | "mon.c01" => handleMonC01 args
+      | "mon.c12" => handleMonC12 args
       | _ => none
     match r with
     | some s => s
